@@ -1,16 +1,59 @@
 (** Extraction of the executable models to OCaml.  Only [ExtrOcamlBasic] is used: [N],
     [Z], [positive], [nat] stay inductive; no [Extract Constant]. *)
 From Coq Require Import Extraction ExtrOcamlBasic.
-From WG Require Import Base.Prelude Codes.Codes BV.Model BV.RefSel BV.Bits Par.Splice Flags.Props.
+(* one import per line (union merge) *)
+From WG Require Import Base.Prelude.
+From WG Require Import Codes.Codes.
+From WG Require Import BV.Model.
+From WG Require Import BV.RefSel.
+From WG Require Import BV.Bits.
+From WG Require Import Par.Splice.
+From WG Require Import Flags.Props.
 
 Extraction Language OCaml.
 
+(* one name per line (the file is merged with "union"): add new lines before the final period *)
 Extraction "model.ml"
-  to_nat to_int nsort incb
-  enc dec code_len nameable
-  compress node_fields decode_graph decode_node rd_fields encode_graph valid_sel depths
-  greedy_sel zuck_sel fields_len
-  rd_bits enc_fields graph_bits node_bitlens prefix_sums offsets_bits dec_gammas
-  decode_records wf_records refs_in_chunk max_depth_ok record_succ
-  par_comp task_queue legal_cuts segments
-  to_props parse_properties props_length from_props representable java_from_props version.
+  to_nat
+  to_int
+  nsort
+  incb
+  enc
+  dec
+  code_len
+  nameable
+  compress
+  node_fields
+  decode_graph
+  decode_node
+  rd_fields
+  encode_graph
+  valid_sel
+  depths
+  greedy_sel
+  zuck_sel
+  fields_len
+  rd_bits
+  enc_fields
+  graph_bits
+  node_bitlens
+  prefix_sums
+  offsets_bits
+  dec_gammas
+  decode_records
+  wf_records
+  refs_in_chunk
+  max_depth_ok
+  record_succ
+  par_comp
+  task_queue
+  legal_cuts
+  segments
+  to_props
+  parse_properties
+  props_length
+  from_props
+  representable
+  java_from_props
+  version
+.
